@@ -248,6 +248,9 @@ class RelEval:
                 return v
             if kind == "null-nav":
                 return None
+            if kind == "entity":
+                # a to-one relationship used as a value stands for the related row's key (null when there is no related row)
+                return v[1]["id"] if v is not None else None
             return UNDEF
         if k in ("Null", "Integer", "Float", "Boolean", "String", "DateTime", "Date", "Time"):
             return refeval.lit_value(t)
@@ -391,6 +394,10 @@ def to_one_paths(table, maxdepth=3):
     return out
 
 
+def _rename_var(t, old, new):
+    return T.replace(t, lambda n: T.I(new) if n == T.I(old) else n)
+
+
 def lambda_atoms(root, allow_body_nav=False):
     """collection atoms for `root`: direct and through to-one prefixes, nesting <= 2"""
     out = []
@@ -416,10 +423,19 @@ def lambda_atoms(root, allow_body_nav=False):
                         out.append(("any-all", T.lam(owner, "Any", "x", T.lam(inner_owner, "All", "y", b2))))
                     out.append(("all-any0", T.lam(owner, "All", "x", T.lam(inner_owner, "Any"))))
                     out.append(("any-notany0", T.lam(owner, "Any", "x", T.unop("Not", T.lam(inner_owner, "Any")))))
+            # the lambda variable is called like the column / relationship its body reads (`comments/any(score: score/score gt 1)`)
+            if not prefix:
+                for body in bodies[:2]:
+                    cols = [st[2] for st in T.subterms(body) if st[0] == "Attribute" and st[1] == T.I("x")]
+                    if cols:
+                        out.append(("any-samename", T.lam(owner, "Any", cols[0], _rename_var(body, "x", cols[0]))))
+                        out.append(("all-samename", T.lam(owner, "All", cols[0], _rename_var(body, "x", cols[0]))))
             if allow_body_nav:
                 for rel1, tgt in SCHEMA[ct]["one"].items():
                     for b in scalar_atoms(("x", rel1), tgt)[:2]:
                         out.append(("any-bodynav", T.lam(owner, "Any", "x", b)))
+                    for b in scalar_atoms(("x", rel1), tgt)[:1]:
+                        out.append(("any-bodynav", T.lam(owner, "Any", rel1, _rename_var(b, "x", rel1))))
     return out
 
 
